@@ -913,5 +913,404 @@ theorem normalizePoint_idempotent (g : Grid K) (h : ∀ a ∈ g.axes, a.lo < a.h
       simp only [List.zipWith_cons_cons, normAxis_idem a.lo a.hi x (h a List.mem_cons_self),
         ih xs (fun b hb => h b (List.mem_cons_of_mem _ hb))]
 
+/-! ### 5. wrapped differences and distances -/
+
+theorem wrap_def (d L : K) : wrap d L = pymod (d + L / 2) L - L / 2 := by
+  unfold wrap; push_cast; rfl
+
+theorem wrap_range (d L : K) (hL : 0 < L) : -(L / 2) ≤ wrap d L ∧ wrap d L < L / 2 := by
+  obtain ⟨h1, h2⟩ := pymod_range (d + L / 2) L hL
+  rw [wrap_def]; constructor <;> linarith
+
+/-- **C12** a wrapped difference never uses more than half a period -/
+theorem wrap_abs_le_half_period (d L : K) (hL : 0 < L) : |wrap d L| ≤ L / 2 := by
+  obtain ⟨h1, h2⟩ := wrap_range d L hL
+  rw [abs_le]; exact ⟨h1, h2.le⟩
+
+/-- the wrapped difference is the raw difference modulo the period -/
+theorem wrap_moves_by_periods (d L : K) : ∃ k : ℤ, wrap d L = d + k * L := by
+  refine ⟨-⌊(d + L / 2) / L⌋, ?_⟩
+  rw [wrap_def]; unfold pymod; rw [floor_def]; push_cast; ring
+
+/-- the wrapped difference is the *unique* representative in `[-L/2, L/2)` -/
+theorem wrap_unique (d L w : K) (hL : 0 < L) (h1 : -(L / 2) ≤ w) (h2 : w < L / 2) (k : ℤ)
+    (e : w = d + k * L) : wrap d L = w := by
+  have : pymod (d + L / 2) L = w + L / 2 := by
+    rw [pymod_eq_iff _ _ _ hL]
+    exact ⟨⟨by linarith, by linarith⟩, -k, by rw [e]; push_cast; ring⟩
+  rw [wrap_def, this]; ring
+
+/-- **C12** the wrapped difference is invariant under period shifts (of either point) -/
+theorem wrap_invariant_under_period_shift (d L : K) (hL : 0 < L) (k : ℤ) :
+    wrap (d + k * L) L = wrap d L := by
+  rw [wrap_def, wrap_def, show d + k * L + L / 2 = (d + L / 2) + k * L by ring, pymod_add_period _ _ hL]
+
+theorem wrap_of_small (d L : K) (hL : 0 < L) (h1 : -(L / 2) ≤ d) (h2 : d < L / 2) : wrap d L = d :=
+  wrap_unique d L d hL h1 h2 0 (by simp)
+
+/-- the tie: a raw difference of exactly half a period wraps to `-L/2` in both directions -/
+theorem wrap_tie (L : K) (hL : 0 < L) : wrap (L / 2) L = -(L / 2) ∧ wrap (-(L / 2)) L = -(L / 2) :=
+  ⟨wrap_unique _ L _ hL (le_refl _) (by linarith) (-1) (by push_cast; ring),
+   wrap_of_small _ L hL (le_refl _) (by linarith)⟩
+
+/-- swapping the two points negates the wrapped difference except at the tie, where both are
+`-L/2`; the square (hence the distance) is always the same -/
+theorem wrap_neg_sq (d L : K) (hL : 0 < L) : wrap (-d) L * wrap (-d) L = wrap d L * wrap d L := by
+  obtain ⟨h1, h2⟩ := wrap_range d L hL
+  obtain ⟨k, hk⟩ := wrap_moves_by_periods d L
+  have e : -d = -wrap d L + k * L := by rw [hk]; ring
+  rw [e, wrap_invariant_under_period_shift _ L hL]
+  rcases eq_or_lt_of_le h1 with h | h
+  · rw [← h, neg_neg, (wrap_tie L hL).1]
+  · rw [wrap_of_small _ L hL (by linarith) (by linarith)]; ring
+
+/-- minimum image: no period image of the raw difference is shorter than the wrapped one -/
+theorem wrap_min_image (d L : K) (hL : 0 < L) (k : ℤ) : |wrap d L| ≤ |d + k * L| := by
+  obtain ⟨k0, hk⟩ := wrap_moves_by_periods d L
+  have hw := wrap_abs_le_half_period d L hL
+  by_cases hm : k = k0
+  · rw [hm, ← hk]
+  · have hm' : k - k0 ≠ 0 := sub_ne_zero.mpr hm
+    have h1 : (1 : K) ≤ |((k - k0 : ℤ) : K)| := by
+      rw [← Int.cast_abs]; exact_mod_cast Int.one_le_abs hm'
+    have e : d + k * L = wrap d L + ((k - k0 : ℤ) : K) * L := by rw [hk]; push_cast; ring
+    have h2 : |((k - k0 : ℤ) : K) * L| ≤ |d + k * L| + |wrap d L| := by
+      have := abs_sub (d + k * L) (wrap d L)
+      rw [e, add_sub_cancel_left] at this
+      rw [e]; exact this
+    rw [abs_mul, abs_of_pos hL] at h2
+    nlinarith
+
+theorem normSq_neg (ds : List K) : normSq (ds.map Neg.neg) = normSq ds := by
+  induction ds with
+  | nil => rfl
+  | cons d ds ih => simp only [List.map_cons, normSq, ih]; ring
+
+theorem wrapComponents_neg (ps : List Bool) (bs : List (K × K)) (ds : List K)
+    (hb : ∀ b ∈ bs, b.1 < b.2) :
+    normSq (wrapComponents ps bs (ds.map Neg.neg)) = normSq (wrapComponents ps bs ds) := by
+  induction ps generalizing bs ds with
+  | nil => simp only [wrapComponents]; exact normSq_neg ds
+  | cons per ps ih =>
+    cases bs with
+    | nil => simp only [wrapComponents]; exact normSq_neg ds
+    | cons b bs =>
+      cases ds with
+      | nil => simp [wrapComponents]
+      | cons d ds =>
+        have hL : 0 < b.2 - b.1 := sub_pos.mpr (hb b List.mem_cons_self)
+        simp only [List.map_cons, wrapComponents, normSq,
+          ih bs ds (fun c hc => hb c (List.mem_cons_of_mem _ hc))]
+        cases per
+        · simp
+        · simp only [if_true]; rw [wrap_neg_sq d _ hL]
+
+theorem zipWith_sub_swap (x1 x2 : List K) :
+    List.zipWith (fun b a => b - a) x1 x2 = (List.zipWith (fun b a => b - a) x2 x1).map Neg.neg := by
+  induction x1 generalizing x2 with
+  | nil => simp
+  | cons a as ih =>
+    cases x2 with
+    | nil => simp
+    | cons b bs => simp only [List.zipWith_cons_cons, List.map_cons, ih bs, neg_sub]
+
+theorem Grid.diffBounds_pos (g : Grid K) (h : ∀ a ∈ g.axes, a.lo < a.hi) :
+    ∀ b ∈ g.diffBounds, b.1 < b.2 := by
+  unfold Grid.diffBounds
+  split
+  · rename_i r z hcls haxes
+    intro b hb
+    have hz : z.lo < z.hi := h z (by rw [haxes]; simp)
+    simp only [List.mem_cons, List.not_mem_nil, or_false, or_self] at hb
+    rw [hb]; exact hz
+  · intro b hb
+    obtain ⟨a, ha, rfl⟩ := List.mem_map.mp hb
+    exact h a ha
+
+/-- **C12** distances are symmetric, on every grid class, in every dimension, for every pair of
+points - including the tie where the raw difference is exactly half a period (`wrap_tie`) -/
+theorem distance_symmetric (g : Grid K) (h : ∀ a ∈ g.axes, a.lo < a.hi) (x1 x2 : List K) :
+    g.distSq x1 x2 = g.distSq x2 x1 ∧ g.distSqGrid x1 x2 = g.distSqGrid x2 x1 := by
+  have key : ∀ y1 y2 : List K, g.distSq y1 y2 = g.distSq y2 y1 := by
+    intro y1 y2
+    unfold Grid.distSq Grid.differenceVector diffVec
+    rw [zipWith_sub_swap y2 y1, wrapComponents_neg _ _ _ (g.diffBounds_pos h)]
+  exact ⟨key x1 x2, key _ _⟩
+
+/-- shift the components that are flagged periodic by whole multiples of their periods -/
+def shiftPeriodic : List Bool → List (K × K) → List ℤ → List K → List K
+  | per :: ps, b :: bs, k :: ks, d :: ds =>
+    (if per then d + (k : K) * (b.2 - b.1) else d) :: shiftPeriodic ps bs ks ds
+  | _, _, _, ds => ds
+
+theorem wrapComponents_shift (ps : List Bool) (bs : List (K × K)) (ks : List ℤ) (ds : List K)
+    (hb : ∀ b ∈ bs, b.1 < b.2) :
+    wrapComponents ps bs (shiftPeriodic ps bs ks ds) = wrapComponents ps bs ds := by
+  induction ps generalizing bs ks ds with
+  | nil => simp [shiftPeriodic]
+  | cons per ps ih =>
+    cases bs with
+    | nil => simp [shiftPeriodic]
+    | cons b bs =>
+      cases ks with
+      | nil => simp [shiftPeriodic]
+      | cons k ks =>
+        cases ds with
+        | nil => simp [shiftPeriodic]
+        | cons d ds =>
+          have hL : 0 < b.2 - b.1 := sub_pos.mpr (hb b List.mem_cons_self)
+          simp only [shiftPeriodic, wrapComponents, ih bs ks ds (fun c hc => hb c (List.mem_cons_of_mem _ hc))]
+          cases per
+          · simp
+          · simp only [if_true]; rw [wrap_invariant_under_period_shift d _ hL k]
+
+theorem zipWith_sub_shift (ps : List Bool) (bs : List (K × K)) (ks : List ℤ) (x2 x1 : List K) :
+    List.zipWith (fun b a => b - a) (shiftPeriodic ps bs ks x2) x1
+      = shiftPeriodic ps bs ks (List.zipWith (fun b a => b - a) x2 x1) := by
+  induction ps generalizing bs ks x2 x1 with
+  | nil => simp [shiftPeriodic]
+  | cons per ps ih =>
+    cases bs with
+    | nil => simp [shiftPeriodic]
+    | cons b bs =>
+      cases ks with
+      | nil => simp [shiftPeriodic]
+      | cons k ks =>
+        cases x2 with
+        | nil => simp [shiftPeriodic]
+        | cons d ds =>
+          cases x1 with
+          | nil => simp [shiftPeriodic]
+          | cons e es =>
+            simp only [shiftPeriodic, List.zipWith_cons_cons, ih bs ks ds es]
+            cases per
+            · simp
+            · simp only [if_true]; congr 1; ring
+
+/-- **C12** distances and difference vectors are invariant under period shifts of either point
+(any whole number of periods along every periodic Cartesian component at once) -/
+theorem distance_invariant_under_period_shift (g : Grid K) (h : ∀ a ∈ g.axes, a.lo < a.hi)
+    (x1 x2 : List K) (ks : List ℤ) :
+    g.differenceVector x1 (shiftPeriodic g.diffFlags g.diffBounds ks x2) = g.differenceVector x1 x2 ∧
+    g.distSq x1 (shiftPeriodic g.diffFlags g.diffBounds ks x2) = g.distSq x1 x2 ∧
+    g.distSq (shiftPeriodic g.diffFlags g.diffBounds ks x1) x2 = g.distSq x1 x2 := by
+  have key : ∀ y1 y2 : List K,
+      g.differenceVector y1 (shiftPeriodic g.diffFlags g.diffBounds ks y2) = g.differenceVector y1 y2 := by
+    intro y1 y2
+    unfold Grid.differenceVector diffVec
+    rw [zipWith_sub_shift, wrapComponents_shift _ _ _ _ (g.diffBounds_pos h)]
+  refine ⟨key x1 x2, ?_, ?_⟩
+  · unfold Grid.distSq; rw [key]
+  · rw [(distance_symmetric g h _ x2).1, (distance_symmetric g h x1 x2).1]
+    unfold Grid.distSq; rw [key]
+
+/-- component `j` of the wrap loop: wrapped iff flag `j` is set (and bound `j` exists), with the
+period taken from bound `j` - flags, bounds and components are paired by position -/
+theorem wrapComponents_getElem? (ps : List Bool) (bs : List (K × K)) (ds : List K) (j : ℕ) :
+    (wrapComponents ps bs ds)[j]? = (ds[j]?).map (fun d =>
+      match ps[j]?, bs[j]? with
+      | some true, some b => wrap d (b.2 - b.1)
+      | _, _ => d) := by
+  induction ps generalizing bs ds j with
+  | nil => simp [wrapComponents]
+  | cons per ps ih =>
+    cases bs with
+    | nil =>
+      simp only [wrapComponents, List.getElem?_nil]
+      cases ds[j]? <;> simp
+    | cons b bs =>
+      cases ds with
+      | nil => simp [wrapComponents]
+      | cons d ds =>
+        cases j with
+        | zero => cases per <;> simp [wrapComponents]
+        | succ j => simp only [wrapComponents, List.getElem?_cons_succ, ih bs ds j]
+
+/-- the grid axis whose own coordinate is the Cartesian component `j`: axis `j` on Cartesian
+grids, the axial axis (1) for the third component of a cylindrical grid, none otherwise -/
+def axisOfComponent (c : GridClass) (j : ℕ) : Option ℕ :=
+  match c with
+  | .unit | .cartesian => some j
+  | .cylindrical => if j = 2 then some 1 else none
+  | .polar | .spherical => none
+
+/-- **C12** on every grid class the Cartesian component that is wrapped is the component of a
+periodic grid axis, and it is wrapped with the period of *that* axis; every other component is
+the plain difference.  In particular the periodic axial direction of a cylindrical grid wraps the
+third Cartesian component with the `z` period (fix F3 of the real code). -/
+theorem periodic_flag_pairs_with_its_axis (g : Grid K)
+    (hs : (g.cls = .polar ∨ g.cls = .spherical → g.axes.length = 1) ∧
+      (g.cls = .cylindrical → g.axes.length = 2))
+    (x1 x2 : List K) (j : ℕ) :
+    (g.differenceVector x1 x2)[j]? = ((List.zipWith (fun b a => b - a) x2 x1)[j]?).map (fun d =>
+      match (axisOfComponent g.cls j).bind (fun ax => g.axes[ax]?) with
+      | some a => if a.periodic then wrap d (a.hi - a.lo) else d
+      | none => d) := by
+  unfold Grid.differenceVector diffVec
+  rw [wrapComponents_getElem?]
+  congr 1
+  funext d
+  rcases g with ⟨cls, axes⟩
+  obtain ⟨hs1, hs2⟩ := hs
+  simp only at hs1 hs2
+  cases cls
+  · -- unit
+    simp only [Grid.diffFlags, Grid.diffBounds, axisOfComponent, List.getElem?_map, Option.bind_some]
+    cases axes[j]? with
+    | none => simp
+    | some a => cases hp : a.periodic <;> simp [hp]
+  · -- cartesian
+    simp only [Grid.diffFlags, Grid.diffBounds, axisOfComponent, List.getElem?_map, Option.bind_some]
+    cases axes[j]? with
+    | none => simp
+    | some a => cases hp : a.periodic <;> simp [hp]
+  · -- polar
+    have hl := hs1 (Or.inl rfl)
+    match axes, hl with
+    | [a], _ =>
+      simp only [Grid.diffFlags, Grid.diffBounds, axisOfComponent, GridClass.dim, Option.bind_none]
+      rcases j with _ | _ | j <;> simp [List.replicate]
+  · -- spherical
+    have hl := hs1 (Or.inr rfl)
+    match axes, hl with
+    | [a], _ =>
+      simp only [Grid.diffFlags, Grid.diffBounds, axisOfComponent, GridClass.dim, Option.bind_none]
+      rcases j with _ | _ | _ | j <;> simp [List.replicate]
+  · -- cylindrical
+    have hl := hs2 rfl
+    match axes, hl with
+    | [r, z], _ =>
+      simp only [Grid.diffFlags, Grid.diffBounds, axisOfComponent]
+      rcases j with _ | _ | _ | j
+      · simp
+      · simp
+      · cases hp : z.periodic <;> simp [hp]
+      · simp
+
+/-- readable special case: the three components of a cylindrical difference vector -/
+theorem cyl_difference_vector (r z : Axis K) (a1 b1 c1 a2 b2 c2 : K) :
+    (⟨.cylindrical, [r, z]⟩ : Grid K).differenceVector [a1, b1, c1] [a2, b2, c2]
+      = [a2 - a1, b2 - b1, if z.periodic then wrap (c2 - c1) (z.hi - z.lo) else c2 - c1] := by
+  simp [Grid.differenceVector, diffVec, Grid.diffFlags, Grid.diffBounds, wrapComponents]
+
+/-- along every periodic axis of every grid class the difference vector uses at most half a
+period, and it is a minimum image -/
+theorem difference_component_le_half_period (g : Grid K) (h : ∀ a ∈ g.axes, a.lo < a.hi)
+    (hs : (g.cls = .polar ∨ g.cls = .spherical → g.axes.length = 1) ∧
+      (g.cls = .cylindrical → g.axes.length = 2))
+    (x1 x2 : List K) (j ax : ℕ) (a : Axis K) (c : K)
+    (hax : axisOfComponent g.cls j = some ax) (ha : g.axes[ax]? = some a) (hp : a.periodic = true)
+    (hc : (g.differenceVector x1 x2)[j]? = some c) :
+    |c| ≤ (a.hi - a.lo) / 2 ∧
+      ∃ d, (List.zipWith (fun b a => b - a) x2 x1)[j]? = some d ∧ ∀ k : ℤ, |c| ≤ |d + k * (a.hi - a.lo)| := by
+  rw [periodic_flag_pairs_with_its_axis g hs x1 x2 j, hax] at hc
+  simp only [Option.bind_some, ha, hp, if_true] at hc
+  have hL : 0 < a.hi - a.lo := sub_pos.mpr (h a (List.mem_of_getElem? ha))
+  cases hd : (List.zipWith (fun b a => b - a) x2 x1)[j]? with
+  | none => rw [hd] at hc; simp at hc
+  | some d =>
+    rw [hd] at hc
+    simp only [Option.map_some, Option.some.injEq] at hc
+    subst hc
+    exact ⟨wrap_abs_le_half_period d _ hL, d, rfl, fun k => wrap_min_image d _ hL k⟩
+
+/-! ### 6. concrete witnesses: hypotheses are satisfiable, regression of defect F3 -/
+
+/-- an annular cylinder, periodic in `z`: `CylindricalSymGrid((1,3), (0,10), (4,5), periodic_z=True)` -/
+def exCyl : Grid K := ⟨.cylindrical, [⟨1, 3, 4, false⟩, ⟨0, 10, 5, true⟩]⟩
+/-- `CartesianGrid([(0,2),(0,16)], [2,4], periodic=True)`: two different periods -/
+def exCart : Grid K := ⟨.cartesian, [⟨0, 2, 2, true⟩, ⟨0, 16, 4, true⟩]⟩
+/-- `SphericalSymGrid((1,2), 3)` -/
+def exSph : Grid K := ⟨.spherical, [⟨1, 2, 3, false⟩]⟩
+
+theorem exCyl_wf : (exCyl : Grid K).WF := by
+  refine ⟨?_, ?_⟩
+  · intro a ha
+    simp only [exCyl, List.mem_cons, List.not_mem_nil, or_false] at ha
+    rcases ha with rfl | rfl <;> exact ⟨by simp, by norm_num, by simp [exCyl]⟩
+  · simp [exCyl]
+
+theorem exSph_wf : (exSph : Grid K).WF := by
+  refine ⟨?_, ?_⟩
+  · intro a ha
+    simp only [exSph, List.mem_cons, List.not_mem_nil, or_false] at ha
+    rcases ha with rfl; exact ⟨by simp, by norm_num, by simp [exSph]⟩
+  · simp [exSph]
+
+theorem exCart_wf : (exCart : Grid K).WF := by
+  refine ⟨?_, ?_⟩
+  · intro a ha
+    simp only [exCart, List.mem_cons, List.not_mem_nil, or_false] at ha
+    rcases ha with rfl | rfl <;> exact ⟨by simp, by norm_num, by simp [exCart]⟩
+  · simp [exCart]
+
+/-- regression of defect F3: across the periodic `z` seam of the cylinder the wrapped distance is
+1 (squared: 1), not 9 -/
+theorem cyl_seam_distance_fixed : (exCyl : Grid K).distSqGrid [2, 1 / 2] [2, 19 / 2] = 1 := by
+  have hw : wrap ((19 : K) / 2 - 1 / 2) (10 - 0) = -1 :=
+    wrap_unique _ _ _ (by norm_num) (by norm_num) (by norm_num) (-1) (by norm_num)
+  simp only [Grid.distSqGrid, Grid.differenceVectorGrid, Grid.toCartesian, exCyl, cylToCart]
+  rw [cyl_difference_vector]
+  simp only [if_true, hw, normSq]
+  norm_num
+
+/-- the pairing used before the fix (two flags against three Cartesian components: the `y`
+difference is wrapped with the `z` period, the `z` difference is not wrapped) gives 9 (squared: 81) -/
+theorem cyl_seam_distance_old_pairing_wrong :
+    cylOldDistSq (⟨1, 3, 4, false⟩ : Axis K) ⟨0, 10, 5, true⟩ [2, 0, 1 / 2] [2, 0, 19 / 2] = 81 := by
+  have hw : wrap ((0 : K) - 0) (10 - 0) = 0 :=
+    wrap_unique _ _ _ (by norm_num) (by norm_num) (by norm_num) 0 (by norm_num)
+  simp only [cylOldDistSq, diffVec, List.zipWith_cons_cons, List.zipWith_nil_right, wrapComponents,
+    Bool.false_eq_true, if_false, if_true, hw, normSq]
+  norm_num
+
+/-- two different periods on a 2-d grid: each component is wrapped with its own period -/
+theorem two_periods_example :
+    (exCart : Grid K).differenceVector [1 / 4, 1] [7 / 4, 15] = [-1 / 2, -2] := by
+  have h1 : wrap ((7 : K) / 4 - 1 / 4) (2 - 0) = -1 / 2 :=
+    wrap_unique _ _ _ (by norm_num) (by norm_num) (by norm_num) (-1) (by norm_num)
+  have h2 : wrap ((15 : K) - 1) (16 - 0) = -2 :=
+    wrap_unique _ _ _ (by norm_num) (by norm_num) (by norm_num) (-1) (by norm_num)
+  simp only [Grid.differenceVector, diffVec, Grid.diffFlags, Grid.diffBounds, exCart, wrapComponents,
+    List.zipWith_cons_cons, List.zipWith_nil_right, List.map_cons, List.map_nil, if_true, h1, h2]
+
+/-- the tie `L/2` on a concrete grid: both directions give `-L/2`, the distance is symmetric -/
+theorem tie_example :
+    (exCart : Grid K).differenceVector [0, 0] [1, 0] = [-1, 0] ∧
+      (exCart : Grid K).differenceVector [1, 0] [0, 0] = [-1, 0] := by
+  have h1 : wrap ((1 : K) - 0) (2 - 0) = -1 :=
+    wrap_unique _ _ _ (by norm_num) (by norm_num) (by norm_num) (-1) (by norm_num)
+  have h2 : wrap ((0 : K) - 1) (2 - 0) = -1 :=
+    wrap_unique _ _ _ (by norm_num) (by norm_num) (by norm_num) 0 (by norm_num)
+  have h3 : wrap ((0 : K) - 0) (16 - 0) = 0 :=
+    wrap_unique _ _ _ (by norm_num) (by norm_num) (by norm_num) 0 (by norm_num)
+  constructor <;>
+    simp only [Grid.differenceVector, diffVec, Grid.diffFlags, Grid.diffBounds, exCart, wrapComponents,
+      List.zipWith_cons_cons, List.zipWith_nil_right, List.map_cons, List.map_nil, if_true, h1, h2, h3]
+
+/-- the spherical shell volumes of `exSph` telescope to `4/3 pi (2^3 - 1^3)` for every `pi` -/
+theorem exSph_volume (pi : K) :
+    (exSph : Grid K).integrateAll pi (fun _ => 1) = 4 / 3 * pi * 7 := by
+  rw [(cell_volumes_sum_eq_volume pi exSph exSph_wf).1]
+  simp [Grid.volume, exSph, ballVolume]; ring
+
+/-- normalisation and reflection on a concrete axis `[-1, 3)` -/
+theorem normalize_example : normAxis (-1 : K) 3 true false (7 / 2) = -1 / 2 := by
+  rw [normalize_eq_toIcoMod (-1 : K) 3 _ (by norm_num), toIcoMod_eq_iff]
+  exact ⟨⟨by norm_num, by norm_num⟩, 1, by norm_num⟩
+
+theorem reflect_example : normAxis (-1 : K) 3 false true (7 / 2) = 5 / 2 := by
+  have : pymod ((7 : K) / 2 - 3) (2 * (3 - -1)) = 1 / 2 := by
+    rw [pymod_eq_iff _ _ _ (by norm_num)]
+    exact ⟨⟨by norm_num, by norm_num⟩, 0, by norm_num⟩
+  simp only [normAxis, Bool.false_eq_true, if_false, if_true, absK_eq_abs, Nat.cast_ofNat, this]
+  rw [abs_of_neg (by norm_num)]; norm_num
+
 end
+
+/-- the hypotheses are satisfiable in a concrete field: all of the above at `K = ℚ` -/
+example : (exCyl : Grid ℚ).WF ∧ (exSph : Grid ℚ).WF ∧ (exCart : Grid ℚ).WF ∧
+    (exCyl : Grid ℚ).distSqGrid [2, 1 / 2] [2, 19 / 2] = 1 :=
+  ⟨exCyl_wf, exSph_wf, exCart_wf, cyl_seam_distance_fixed⟩
+
 end PdeVerif.Grids
